@@ -87,6 +87,12 @@ map_has = z3.Function("map_has", I, Val, B)
 map_get = z3.Function("map_get", I, Val, Val)
 map_len = z3.Function("map_len", I, I)
 map_key_at = z3.Function("map_key_at", I, I, Val)
+has_attr = z3.Function("has_attr", Val, S, B)            # hasattr(v, name) for attributes of library objects
+lib_attr = z3.Function("lib_attr", Val, S, Val)          # the value of such an attribute
+dict_has = z3.Function("dict_has", I, Val, B)             # local dicts: membership / lookup per (object, version)
+dict_get = z3.Function("dict_get", I, Val, Val)
+seg_count = z3.Function("seg_count", I, I)               # number of segments of a YAMLPath object (same for both parses)
+seg_type = z3.Function("seg_type", I, I, Val)            # type of the i-th segment of a YAMLPath (same in both parses)
 fld = {}                                               # attribute functions of heap objects, by name
 
 
